@@ -6,7 +6,7 @@ BASELINE = "cd /repo && /venv/bin/python -m pytest -ra -q -p no:cacheprovider --
 
 CHECKS = {
  'C05': dict(level='model_checking',
-   text='Schedules are merge orders of per-thread event programs; every ordered pair and triple of 11 programs and EVERY interleaving (quick: 124k schedules; thorough: 14.4M) is fed to a fresh real TracesParser; per-thread projections and learned tables must equal the solo runs. The library has no real threads, so the explorer is the scheduler.',
+   text='Schedules are merge orders of per-thread event programs; every ordered pair and triple of 13 programs and EVERY interleaving (quick: about 200k schedules; thorough: tens of millions) is fed to a fresh real TracesParser; per-thread projections and learned tables must equal the solo runs. The library has no real threads, so the explorer is the scheduler.',
    note='Trusted: program library in checks/c05.py (programs whose text depends only on the thread\'s own records).',
    technique='exhaustive enumeration of all interleavings of 2-3 per-thread programs on the real parser, differential against solo runs'),
  'C08': dict(level='model_checking',
@@ -82,7 +82,7 @@ CHECKS = {
    note='Trusted: reference filter semantics transcribed from the statement; containers from mc/build.py.',
    technique='exhaustive configuration x history enumeration on the real facade with a reference filter'),
  'C04': dict(level='model_checking',
-   text='Every event history up to depth 4 (quick: 2.56M maximal histories over 40 symbols; thorough: depth 5, 102M, plus depth 6 on a 16-symbol core and fragment/3-thread alphabets) is fed to a fresh real TracesParser with a reference model of the statement in lockstep; every step of every history is judged. Pairing is finite-state per (thread, code), so bounded-depth exhaustive history enumeration is the natural level.',
+   text='Every event history up to depth 4 (quick: about 4M maximal histories over ten alphabets; thorough: depth 5 on 40 symbols = 102M, depth 6 on a 16-symbol core) is fed to a fresh real TracesParser - through feed() and through feed_generator, with empty and with pre-populated thread maps - with a reference model of the statement in lockstep; every step of every history is judged; plus long windows (64..20 000 records, own and foreign threads). Pairing is finite-state per (thread, code), so bounded-depth exhaustive history enumeration is the natural level.',
    note='Trusted: the reference model in checks/c04.py; Kevent objects are constructed directly (container layer is C01-C03). Depth bound as stated; codes limited to the alphabet.',
    technique='explicit-state exhaustive enumeration of operation histories on the real TracesParser, lockstep reference model'),
 }
@@ -119,7 +119,7 @@ def main():
                      'kind_free_text': 'hand-written bounded exhaustive explorer for Python: enumerates finite spaces (histories, interleavings, truncation offsets, configurations, input shapes) completely, runs each on fresh real objects with a reference model in lockstep, sharded over 16 forked workers'}],
         'checks': checks,
         'not_applicable': [{'property_id': p, 'reason': NOT_BUILT_REASON} for p in props if p not in CHECKS],
-        'notes': 'See DESIGN.md. known_findings.json lists genuine defects (known / fixed).',
+        'notes': 'See DESIGN.md (section 4 per-property design, 5 defects and fixes, 6 detection campaign). known_findings.json lists genuine defects (known / fixed). seeded/ holds 120 sub-agent regressions with demonstrations; mutants/ the own mutant campaign.',
     }
     with open(os.path.join(VERIF, 'MANIFEST.json'), 'w') as f:
         json.dump(man, f, indent=1)
